@@ -125,10 +125,14 @@ def stub_token(kinds, line=1):
 
 
 class StubMatcher:
-    """delivers prescribed kinds: token.kinds is the set of kinds the line would match"""
+    """delivers prescribed kinds: token.kinds is the set of kinds the line would match.
+    (It is a container of its call log, hence falsy while empty - a caller-supplied matcher must be used whatever its truth value.)"""
 
     def __init__(self):
         self.calls = []
+
+    def __len__(self):
+        return len(self.calls)
 
     def reset(self):
         pass
@@ -148,8 +152,13 @@ class StubMatcher:
 
 
 class RecordingBuilder:
+    """(a container of the events it received, hence falsy while empty - a caller-supplied builder must be used whatever its truth value)"""
+
     def __init__(self):
         self.ev = []
+
+    def __len__(self):
+        return len(self.ev)
 
     def reset(self):
         self.ev = []
